@@ -2,7 +2,7 @@
     remove_jobs_outside_of_time_window, update_job_names_by_root_span), get_time_window, and the
     effect of cleaning on the streamed events. *)
 From Coq Require Import ZArith List Bool.
-From V Require Import Store.Rel Store.Clean Store.Stream Store.CleanProofs.
+From V Require Import Store.Rel Store.Clean Store.Stream Store.Ingest Store.CleanProofs.
 Import ListNotations.
 Open Scope Z_scope.
 
@@ -25,10 +25,12 @@ Print Assumptions c11_straddle_not_in_window.
 Theorem c11_deletions_are_sublists :
   (forall st,
       db (rm_inconsistent st) = filter (fun n => negb (memp (njob n) (bad_jobs st))) (db st)
-      /\ assoc (rm_inconsistent st) = assoc st /\ hashes (rm_inconsistent st) = hashes st)
+      /\ assoc (rm_inconsistent st) = prune_assoc (db (rm_inconsistent st)) (assoc st)
+      /\ hashes (rm_inconsistent st) = hashes st)
   /\ (forall w st,
       db (rm_outside w st) = filter (fun n => memp (njob n) (window_jobs w st)) (db st)
-      /\ assoc (rm_outside w st) = assoc st /\ hashes (rm_outside w st) = hashes st)
+      /\ assoc (rm_outside w st) = prune_assoc (db (rm_outside w st)) (assoc st)
+      /\ hashes (rm_outside w st) = hashes st)
   /\ (forall st n n', In n (db st) -> In n' (db st) -> njob n = njob n' ->
         (In n (db (rm_inconsistent st)) <-> In n' (db (rm_inconsistent st))))
   /\ (forall w st n n', In n (db st) -> In n' (db st) -> njob n = njob n' ->
@@ -117,6 +119,41 @@ Theorem c11_clean_pv_frame_needs_nodup :
     /\ stream [] [] (clean w (restrict (kept_jobs w st) st)) <> stream [] [] (clean w st).
 Proof. exact clean_pv_frame_needs_nodup. Qed.
 Print Assumptions c11_clean_pv_frame_needs_nodup.
+
+Theorem c11_clean_no_stale :
+  forall w st p c, In (p, c) (assoc (clean w st)) -> In c (ids (db (clean w st))).
+Proof. exact clean_no_stale. Qed.
+Print Assumptions c11_clean_no_stale.
+
+Theorem c11_clean_inv_b : forall w st, inv_b st = true -> inv_b (clean w st) = true.
+Proof. exact clean_inv_b. Qed.
+Print Assumptions c11_clean_inv_b.
+
+Theorem c11_clean_inv_b_strong :
+  forall w st,
+  nodupb (ids (db st)) = true -> nodup_pairb (assoc st) = true -> inv_b (clean w st) = true.
+Proof. exact clean_inv_b_strong. Qed.
+Print Assumptions c11_clean_inv_b_strong.
+
+Theorem c11_clean_v0_same_output :
+  forall w st,
+  db (clean w st) = db (clean_v0 w st)
+  /\ forall fm fn, stream fm fn (clean w st) = stream fm fn (clean_v0 w st).
+Proof. exact clean_v0_same_output. Qed.
+Print Assumptions c11_clean_v0_same_output.
+
+Theorem c11_clean_v0_leaves_stale :
+  let st := mkstore [mknode 1 None 1 1 1 12 13 1; mknode 2 None 2 1 1 1 2 1;
+                     mknode 3 (Some 2%positive) 2 1 1 1 2 1]
+                    [(2, 3)%positive] [] in
+  inv_b st = true
+  /\ ids (db (clean_v0 (10, 20) st)) = [1%positive]
+  /\ assoc (clean_v0 (10, 20) st) = [(2, 3)%positive]
+  /\ inv_b (clean_v0 (10, 20) st) = false
+  /\ assoc (clean (10, 20) st) = []
+  /\ inv_b (clean (10, 20) st) = true.
+Proof. exact clean_v0_leaves_stale. Qed.
+Print Assumptions c11_clean_v0_leaves_stale.
 
 Theorem c11_window_spec :
   forall b mn mx lo hi,
